@@ -121,7 +121,7 @@ template<uint32_t N> static inline void ld1_body() {
     if (N >= 4) V_ASSERT(i3 == ((i0 + 3) & 31), "ld1: fourth list register is consecutive modulo 32");
     V_ASSERT(gp_sp_ok(b) && fld(w, 5, 5) == (b & 31), "ld1: Rn is r0-r30 or SP");
     if (mode == 0) V_ASSERT(fld(w, 23, 1) == 0 && fld(w, 16, 5) == 0, "ld1: no offset form");
-    else if (mode == 1) V_ASSERT(fld(w, 23, 1) == 1 && ix && i < 31 && fld(w, 16, 5) == i, "ld1: post-index by X register r0-r30");
+    else if (mode == 1) V_ASSERT(fld(w, 23, 1) == 1 && i < 31 && fld(w, 16, 5) == i, "ld1: post-index by register r0-r30");
     else if (off == 0) V_ASSERT(fld(w, 23, 1) == 0 && fld(w, 16, 5) == 0, "ld1: post-index by 0 is the no offset form");
     else V_ASSERT(fld(w, 23, 1) == 1 && fld(w, 16, 5) == 31 && off == int32_t(N * (Q ? 16 : 8)), "ld1: post-index immediate equals the bytes transferred");
     V_WITNESS("ld1");
